@@ -48,7 +48,8 @@ pub fn enc_len(x: &mut Xo, index: u64, allow_huge: bool) -> usize {
 pub fn big_lens() -> &'static [usize] {
     static L: std::sync::OnceLock<Vec<usize>> = std::sync::OnceLock::new();
     L.get_or_init(|| {
-        let mut bases: Vec<usize> = (16..=22).map(|j| 1usize << j).collect();
+        // ... and 8, 16, 32 MiB (the four-byte length prefix runs from 2 MiB to 256 MiB - 1)
+        let mut bases: Vec<usize> = (16..=25).map(|j| 1usize << j).collect();
         for j in 7..=14 {
             bases.push(168 << j);
             bases.push(136 << j);
@@ -183,8 +184,11 @@ impl Scenario for CryptSc {
         }
         if extremes {
             p.set("g", (index % 2) as i64);
-            p.set("t", 2 + ((index / 2) % 39) as i64);
-            p.set("n", if (index / 78) % 2 == 0 { 255 } else { 254 });
+            // every t in 2..=40, then thresholds around the 64 / 128 / 255 marks (fixed-size tables, batch sizes, u8 limits)
+            const HIGH_T: [i64; 13] = [41, 63, 64, 65, 66, 100, 127, 128, 129, 200, 253, 254, 255];
+            let ti = (index / 2) % 52;
+            p.set("t", if ti < 39 { 2 + ti as i64 } else { HIGH_T[(ti - 39) as usize] });
+            p.set("n", if (index / 104) % 2 == 0 { 255 } else { 254 });
             p.set("scheme", ((index / 2) % 3) as i64);
         }
         p
@@ -944,7 +948,7 @@ fn eg_tally(plan: &Plan, lib: &dyn Lib, rec: &mut Rec) {
                 let mut v = vec![n - 1, 127.min(n - 1), 126.min(n - 1)];
                 v.sort();
                 v.dedup();
-                while v.len() < t + 2 {
+                while v.len() < (t + 2).min(n) {
                     let c = x.below(n as u64) as usize;
                     if !v.contains(&c) {
                         v.push(c);
@@ -1042,6 +1046,6 @@ fn eg_proof_tamper(plan: &Plan, lib: &dyn Lib, rec: &mut Rec) {
 mod tests {
     #[test]
     fn big_count() {
-        assert_eq!(super::big_lens().len(), 161);
+        assert_eq!(super::big_lens().len(), 182);
     }
 }
